@@ -4,13 +4,21 @@ import random
 
 import vlib
 
-MODEL_VO = ['Pdb/Records.vo', 'Pdb/AtomSite.vo', 'Pdb/Subchain.vo']
+MODEL_VO = ['Pdb/Records.vo', 'Pdb/AtomSite.vo', 'Pdb/Subchain.vo', 'Pdb/AtomLine.vo']
 
 PDB_SRCS = ['polyheur.cpp', 'resinfo.cpp', 'sprintf.cpp', 'symmetry.cpp', 'gz.cpp']
 
 
 def gen_tables():
-    return False
+    """Translator: the printf format strings of the ATOM / HETATM and CRYST1 records are copied out of src/to_pdb.cpp into
+    coq/Pdb/AtomFmt_gen.v (the kernel then re-checks that the model's lines are what those formats produce)."""
+    rc, out, err = vlib.sh(['python3', vlib.ROOT + '/gen/extract_atom_fmt.py', vlib.REPO], timeout=60)
+    if rc != 0:
+        raise RuntimeError('extract_atom_fmt failed: ' + err.decode()[-2000:])
+    changed = vlib.write_if_changed(vlib.COQ + '/Pdb/AtomFmt_gen.v', out)
+    if changed:
+        vlib.log('AtomFmt_gen.v changed -> the format theorems will be re-checked')
+    return changed
 
 
 def harness():
@@ -18,6 +26,7 @@ def harness():
 
 
 def driver():
+    gen_tables()
     return vlib.ocaml_driver('pdb', MODEL_VO)
 
 
